@@ -424,3 +424,178 @@ Lemma is_union_panics_on_far_names :
   /\ is_valid_type nil_root (Ty [109;105;100;46;84] TNil TNil) = true
   /\ is_union nil_root (Ty [109;105;100;46;84] TNil TNil) = CPanic CPNil.
 Proof. vm_compute. repeat split. Qed.
+
+(** * The -gen parameter *)
+
+Lemma split_nonempty c s : exists w ws, split c s = w :: ws.
+Proof.
+  induction s as [|x s IH]; cbn [split]; [eauto|].
+  destruct (x =? c); [eauto|]. destruct IH as (w & ws & H). rewrite H. eauto.
+Qed.
+
+Lemma split_contains c s : contains c s = true -> exists a b rest, split c s = a :: b :: rest.
+Proof.
+  unfold contains. induction s as [|x s IH]; cbn [existsb split]; [discriminate|].
+  rewrite Z.eqb_sym. destruct (x =? c) eqn:E; cbn [orb].
+  - intros _. destruct (split_nonempty c s) as (w & ws & H). rewrite H. eauto.
+  - intros H. destruct (IH H) as (a & b & rest & Hs). rewrite Hs. eauto.
+Qed.
+
+Definition opts_valid (lang : str) (m : list (str * str)) : Prop :=
+  Forall (fun p => validate_option lang (fst p) = true) m.
+
+Lemma set_opt_valid lang k v m :
+  validate_option lang k = true -> opts_valid lang m -> opts_valid lang (set_opt k v m).
+Proof.
+  intros Hk. induction 1 as [|[k' v'] m Hp Hm IH]; cbn [set_opt].
+  - constructor; [exact Hk|constructor].
+  - destruct (str_eqb k k'); constructor; auto.
+Qed.
+
+Lemma clean_options_total lang opts : forall m,
+  opts_valid lang m ->
+  (exists m', clean_options lang opts m = COk m' /\ opts_valid lang m')
+  \/ clean_options lang opts m = CErr.
+Proof.
+  induction opts as [|o opts IH]; intros m Hm; cbn [clean_options]; [left; eauto|].
+  destruct (split_nonempty 61 o) as (w & ws & Hs). rewrite Hs.
+  change (nth_res 0 (w :: ws)) with (COk w). cbn [cbind].
+  destruct (validate_option lang w) eqn:V; cbn [negb]; [|right; reflexivity].
+  destruct ws as [|w1 ws']; cbn [length Nat.eqb].
+  - apply IH. apply set_opt_valid; assumption.
+  - change (nth_res 1 (w :: w1 :: ws')) with (COk w1). cbn [cbind]. apply IH. apply set_opt_valid; assumption.
+Qed.
+
+(** CleanGenParam never indexes out of range; what it accepts are options of the language *)
+Lemma clean_gen_param_total gen :
+  (exists lang m, clean_gen_param gen = COk (lang, m) /\ (m = [] \/ opts_valid lang m))
+  \/ clean_gen_param gen = CErr.
+Proof.
+  unfold clean_gen_param. destruct (contains 58 gen) eqn:C; cbn [negb]; [|left; eauto].
+  destruct (split_contains 58 gen C) as (a & b & rest & Hs). rewrite Hs.
+  change (nth_res 0 (a :: b :: rest)) with (COk a). change (nth_res 1 (a :: b :: rest)) with (COk b). cbn [cbind].
+  match goal with |- context [clean_options a ?arr []] =>
+    destruct (clean_options_total a arr [] (Forall_nil _)) as [(m' & Hm & Hv)|He] end.
+  - rewrite Hm. cbn [cbind]. left. eauto.
+  - rewrite He. right. reflexivity.
+Qed.
+
+Lemma resolve_gen_total gen :
+  (exists lang m, resolve_gen gen = COk (lang, m) /\ mem lang generator_langs = true
+                  /\ (m = [] \/ opts_valid lang m))
+  \/ resolve_gen gen = CErr.
+Proof.
+  unfold resolve_gen.
+  destruct (clean_gen_param_total gen) as [(lang & m & H & Hv)|H]; rewrite H; cbn [cbind fst].
+  - destruct (mem lang generator_langs) eqn:M; [left; eauto|right; reflexivity].
+  - right. reflexivity.
+Qed.
+
+(** an option the language does not have is an error, wherever it stands *)
+Lemma unknown_option_is_error lang pre o post :
+  validate_option lang (match split 61 o with w :: _ => w | [] => [] end) = false ->
+  forall m, opts_valid lang m ->
+  clean_options lang (pre ++ o :: post) m = CErr
+  \/ exists o', In o' pre /\ validate_option lang (match split 61 o' with w :: _ => w | [] => [] end) = false.
+Proof.
+  intros Hbad. induction pre as [|p pre IH]; intros m Hm; cbn [app clean_options].
+  - left. destruct (split_nonempty 61 o) as (w & ws & Hs). rewrite Hs in *.
+    change (nth_res 0 (w :: ws)) with (COk w). cbn [cbind]. rewrite Hbad. reflexivity.
+  - destruct (split_nonempty 61 p) as (w & ws & Hs).
+    assert (Hp : validate_option lang w = false ->
+                 exists o', In o' (p :: pre) /\ validate_option lang (match split 61 o' with w :: _ => w | [] => [] end) = false).
+    { intros V. exists p. split; [left; reflexivity|]. rewrite Hs. exact V. }
+    rewrite Hs. change (nth_res 0 (w :: ws)) with (COk w). cbn [cbind].
+    destruct (validate_option lang w) eqn:V; cbn [negb]; [|right; auto].
+    destruct ws as [|w1 ws']; cbn [length Nat.eqb].
+    + destruct (IH (set_opt w [] m) (set_opt_valid _ _ _ _ V Hm)) as [H|(o' & Ho & Hv)];
+        [left; exact H | right; exists o'; split; [right; exact Ho | exact Hv]].
+    + change (nth_res 1 (w :: w1 :: ws')) with (COk w1). cbn [cbind].
+      destruct (IH (set_opt w w1 m) (set_opt_valid _ _ _ _ V Hm)) as [H|(o' & Ho & Hv)];
+        [left; exact H | right; exists o'; split; [right; exact Ho | exact Hv]].
+Qed.
+
+(** * Classification helpers *)
+
+Lemma is_enum_total f t : t <> TNil -> exists b, is_enum f t = COk b.
+Proof. destruct t as [|n k v]; [congruence|]. intros _. unfold is_enum. cbn [ty_name cbind]. eauto. Qed.
+
+(** IsStruct never panics on a validated program *)
+Lemma is_struct_total f t : wellvalidated f -> t <> TNil -> exists b, is_struct f t = COk b.
+Proof.
+  intros Hw Hnn. unfold is_struct.
+  destruct (underlying_t_total f t Hw Hnn) as (u & Hu & Hun). rewrite Hu. cbn [cbind].
+  destruct u as [|n k v]; [congruence|].
+  destruct (is_primitive n); [eauto|].
+  destruct k; [destruct v|]; eauto.
+  destruct (is_enum_total f (Ty n TNil TNil)) as [b Hb]; [discriminate|]. rewrite Hb. cbn [cbind]. eauto.
+Qed.
+
+(** getEnumFromThriftType on a validated program: never a nil dereference, never out of fuel;
+    what is left is its own panic("not a valid thrift type") *)
+Lemma go_enum_no_crash_but_explicit f t :
+  wellvalidated f -> t <> TNil ->
+  (exists z, go_enum_from_thrift_type f t = COk z) \/ go_enum_from_thrift_type f t = CPanic CPExplicit.
+Proof.
+  intros Hw Hnn. unfold go_enum_from_thrift_type.
+  destruct (underlying_t_total f t Hw Hnn) as (u & Hu & Hun). rewrite Hu. cbn [cbind].
+  destruct u as [|n k v]; [congruence|]. cbn [ty_name cbind].
+  repeat match goal with |- context [if ?c then COk ?z else _] => destruct c; [left; eauto|] end.
+  destruct (is_enum_total f (Ty n k v)) as [b Hb]; [discriminate|]. rewrite Hb. cbn [cbind].
+  destruct b; [left; eauto|].
+  destruct (is_struct_total f (Ty n k v) Hw) as [s Hs]; [discriminate|]. rewrite Hs. cbn [cbind].
+  destruct s; [left; eauto|right; reflexivity].
+Qed.
+
+(** single file (no includes): the panic branch is unreachable for types the parser produces *)
+Definition shaped_file (f : frugal) : Prop :=
+  forall d, In d (typedefs f) -> parser_shaped (snd d) = true.
+
+Lemma underlying_single_end fuel : forall f t u,
+  incs f = [] -> underlying fuel f t = COk u ->
+  (u = t \/ exists n, In (n, u) (typedefs f))
+  /\ forall fuel', underlying (S fuel') f u = COk u.
+Proof.
+  induction fuel as [|fuel IH]; intros f t u Hi H; [discriminate|].
+  cbn [underlying] in H. destruct t as [|name k v]; [discriminate|].
+  destruct (is_nil (include_name name)) eqn:E; cbn [negb] in H.
+  - destruct (lookup_last (param_name name) (typedefs f)) as [target|] eqn:L.
+    + destruct (IH _ _ _ Hi H) as [[Ha|(n & Hb)] Hend]; split; auto.
+      * subst u. right. exists (param_name name). apply lookup_last_In. exact L.
+      * right. eauto.
+    + inversion H; subst. split; [auto|]. intros fuel'. cbn [underlying]. rewrite E. cbn [negb]. rewrite L. reflexivity.
+  - rewrite Hi in H. cbn [assoc] in H. inversion H; subst. split; [auto|].
+    intros fuel'. cbn [underlying]. rewrite E, Hi. reflexivity.
+Qed.
+
+Lemma go_enum_total_single_file f t :
+  wellvalidated f -> incs f = [] -> shaped_file f -> parser_shaped t = true -> t <> TNil ->
+  exists z, go_enum_from_thrift_type f t = COk z.
+Proof.
+  intros Hw Hi Hsh Hst Hnn. unfold go_enum_from_thrift_type.
+  destruct (underlying_t_total f t Hw Hnn) as (u & Hu & Hun). rewrite Hu. cbn [cbind].
+  destruct (underlying_single_end _ _ _ _ Hi Hu) as [Horigin Hend].
+  assert (Hus : parser_shaped u = true).
+  { destruct Horigin as [->|(n & Hin)]; [assumption|]. exact (Hsh _ Hin). }
+  destruct u as [|n k v]; [congruence|]. cbn [ty_name cbind].
+  destruct (str_eqb n s_bool) eqn:E1; [eauto|].
+  destruct (str_eqb n s_byte || str_eqb n s_i8) eqn:E2; [eauto|].
+  destruct (str_eqb n s_i16) eqn:E3; [eauto|].
+  destruct (str_eqb n s_i32) eqn:E4; [eauto|].
+  destruct (str_eqb n s_i64) eqn:E5; [eauto|].
+  destruct (str_eqb n s_double) eqn:E6; [eauto|].
+  destruct (str_eqb n s_string || str_eqb n s_binary) eqn:E7; [eauto|].
+  destruct (str_eqb n s_list) eqn:E8; [eauto|].
+  destruct (str_eqb n s_set) eqn:E9; [eauto|].
+  destruct (str_eqb n s_map) eqn:E10; [eauto|].
+  apply orb_false_iff in E2 as [E2 E2']. apply orb_false_iff in E7 as [E7 E7'].
+  assert (Hprim : is_primitive n = false).
+  { unfold is_primitive, base_types. cbn [mem]. rewrite E1, E2, E2', E3, E4, E5, E6, E7, E7'. reflexivity. }
+  assert (Hcont : is_container n = false).
+  { unfold is_container, container_types. cbn [mem]. rewrite E8, E9, E10. reflexivity. }
+  cbn [parser_shaped] in Hus. rewrite Hcont in Hus. apply andb_true_iff in Hus as [Hk Hv].
+  destruct k; [|discriminate]. destruct v; [|discriminate].
+  destruct (is_enum_total f (Ty n TNil TNil)) as [b Hb]; [discriminate|]. rewrite Hb. cbn [cbind].
+  destruct b; [eauto|].
+  unfold is_struct, underlying_t. rewrite (Hend (weight f)). cbn [cbind]. rewrite Hprim, Hb. cbn [cbind negb]. eauto.
+Qed.
